@@ -84,6 +84,9 @@ InjSet ==
   \cup {[NoInj EXCEPT !.fn = "redirect"]}
   \* a raising method_context_closed / wsgi_close listener, on a success and on a fault
   \cup {[NoInj EXCEPT !.fin = f, !.fn = o] : f \in {"raise_closed", "raise_wsgiclose"}, o \in {"ok", "fault_client"}}
+  \* a wsgi_return listener REPLACES the body (appends a trailer, as a compressing listener would): the announced length is the
+  \* length of what is handed over, not of what the protocol had serialized
+  \cup {[NoInj EXCEPT !.fin = "rewrite", !.res = r] : r \in {"plain", "gen"}}
 
 EventInj == {i \in InjSet : i.res \in {"plain", "none"}}
 EventScenarios ==
@@ -102,7 +105,7 @@ EventScenarios ==
 \* body length x declared CONTENT_LENGTH x limit x block x chunked x outcome x abort
 WsgiInj == {i \in InjSet : i.call = "ok" /\ i.ret = "ok" /\ i.ser = "ok"
                              /\ i.fn \in {"ok", "fault_client", "fault_413", "exc", "redirect"}
-                             /\ i.fin \in {"ok", "raise_wsgiclose"}}
+                             /\ i.fin \in {"ok", "raise_wsgiclose", "rewrite"}}
 WsgiRpcOf(ML, BL, LEN, DECL) ==
   { s \in [cfg : [tr : {"wsgi"}, family : {"json", "soap11"}, chunked : BOOLEAN,
                   maxlen : ML, block : BL],
@@ -125,7 +128,7 @@ WsgiWsdlScenarios ==
 WsgiHttpOutScenarios ==
   [cfg : [tr : {"wsgi"}, family : {"http"}, chunked : BOOLEAN, maxlen : {4}, block : {1}],
    req : [kind : {"rpc"}, class : {"valid"}, len : {1}, declared : {Absent}],
-   inj : {i \in WsgiInj : i.fin = "ok"}, abort : {NoAbort, 0, 1}]
+   inj : {i \in WsgiInj : i.fin \in {"ok", "rewrite"}}, abort : {NoAbort, 0, 1}]
 WsgiScenarios == WsgiRpcScenarios \cup WsgiWsdlScenarios \cup WsgiHttpOutScenarios
 
 Scenarios == IF ScenSet = "events" THEN EventScenarios ELSE WsgiScenarios
@@ -388,7 +391,7 @@ Spec == Init /\ [][Next]_vars /\ WF_vars(Next)
 \* by what is known about the call), so that the SAME definitions are evaluated
 \* by TLC on the model here (M1) and on traces recorded from the real code (M3).
 Done == pc = "done"
-K == [tr |-> cfg.tr, rpc |-> req.kind = "rpc", mayEscape |-> inj.fin # "ok",
+K == [tr |-> cfg.tr, rpc |-> req.kind = "rpc", mayEscape |-> inj.fin \in {"raise_closed", "raise_wsgiclose"},
       wcloseExpected |-> inj.fin # "raise_closed", soap |-> cfg.family \in Soap, done |-> Done,
       fault |-> outErr # NoFault, fnOk |-> fnOk, fnRuns |-> fnRuns, redirect |-> (inj.fn = "redirect" /\ fnRuns > 0),
       infault |-> inErr # NoFault,
